@@ -93,6 +93,16 @@ CHECKS = {
             "three configurations for the histories; numba cache keyed by the source hash.",
             "TLC-enumerated operation histories replayed into the real library (both execution modes) + TLA+ "
             "judgement of every step against fresh-interpreter reference runs"),
+    "C16": ("exploration", "Monitoring level: the specification delimits the in-contract input space (Constraints!InContract, "
+            "NucsAbs!WellFormed, re-evaluated by TLC on every record) and has no step for an IndexError; the call corpus "
+            "(small-scope families, random calls, large-arity calls up to 40 variables) and the engine corpus are "
+            "executed interpreted (NumPy checks every index) and under a NUMBA_BOUNDSCHECK=1 build of the compiled code; "
+            "any execution in which the runtime's bounds checks fire is rejected.",
+            "Trusted: NumPy's and Numba's bounds checks as the detector; TLC + Constraints.tla/NucsAbs.tla as the judge of "
+            "in-contractness. An out-of-bounds access on an input the corpus never reaches is not detected; the interior "
+            "of the Hall-interval algorithms is not modelled.",
+            "TLA+ trace validation in which an IndexError event has no specification counterpart (interpreted runs and a "
+            "bounds-check build of the compiled code), over TLC-checked in-contract corpora"),
     "C17": ("model_checking", "NucsAbs carries the observed event counts in the layout of the statistics array; at every "
             "pass end, yield, return and at the end the 13 reported counters must equal them; conservation laws are "
             "clauses of Done.", TRUST_ENGINE, TECH_ENGINE),
